@@ -2,23 +2,32 @@
 # C16 — text-image and VTK export (`pewlib.io.textimage`, `pewlib.io.vtk`)
 
 ## Text image
-`save` is `np.savetxt(path, data, delimiter=",", comments="#", header=header, fmt="%.18g")`: an
-optional header line `# <header>`, then one line per row, the fields printed by `fmt` and joined
-by commas, every line terminated by `\n`.  `load` (no delimiter given) replaces `;` and tab by
-`,` in every line and hands the lines to `np.genfromtxt(delimiter=",", comments="#", ndmin=2)`:
-the comment is cut, blank lines are skipped, the line is split at commas, every field is parsed,
-all rows must have the same number of columns; the array has shape (rows, columns); with `ndmin=2`
-nothing is squeezed (the code before commit 9e652ea called it with the default `ndmin=0`, which
-squeezes every axis of length one, and `atleast_2d` then turns a column into a row).
+`save` is `np.savetxt(path, data, delimiter=",", comments="#", header=header, fmt="%.18g")`: when
+`header` is not empty the text `"#" + header.replace("\n", "\n#") + "\n"` (the comment prefix has no
+space, every line of a multi-line header gets it), then one line per row, the fields printed by
+`fmt` and joined by commas, every line terminated by `\n`.
 
-The number printer and parser are opaque parameters `fmt` / `parse`; the theorems assume
-`parse (fmt x) = x` and that `fmt` prints no delimiter, comment or newline character (`%.18g` →
-`strtod` is the identity on float64 — trusted, exercised by the correspondence check).
+`load` (no delimiter given) opens the file in text mode (universal newlines: `\r\n` and a lone `\r`
+arrive as `\n`), replaces `;` and tab by `,` in every line and hands the lines to
+`np.genfromtxt(delimiter=",", comments="#", dtype=float64, ndmin=2)`.  Its `LineSplitter` cuts the line
+at the first `#`, strips the characters space, `\r`, `\n` from both ends, returns no field for an
+empty rest and `rest.split(",")` otherwise.  Lines without fields are skipped; the first line with
+fields fixes the number of columns; a later line with another number of fields makes the call
+raise `ValueError`; with no line at all a warning is issued and an empty array comes back.  Every
+field goes through the *loose* float converter `float(field)` with `nan` for a `ValueError`
+(so an empty or unparsable field is NaN, never an error).  The result has shape (rows, columns);
+`_ensure_ndmin_ndarray(ndmin=2)` squeezes nothing (the code before commit 9e652ea used the default
+`ndmin=0`, which squeezes every axis of length one, and `atleast_2d` then made a column a row).
+
+The number printer and the converter are opaque parameters `fmt : α → Str` / `conv : Str → α`
+(`conv` is total: it is `float` with the NaN fallback).  The theorems assume `conv (fmt x) = x` and
+that `fmt` prints no delimiter, comment, newline or space character (`%.18g` → `float` is the
+identity on float64 — trusted, exercised by the correspondence check).
 
 ## VTK
-`save` raises the image to 3-D, flips axis 0, swaps axes 0 and 1, writes the extents, one
-`DataArray` per element with its byte offset into the appended section, and the appended section:
-per element a `UInt64` byte count followed by the values in Fortran order.
+`save` raises the image to 3-D, flips axis 0, swaps axes 0 and 1, writes the XML header (extents,
+origin, spacing, one `DataArray` per element with its byte offset into the appended section) and
+the appended section: per element a `UInt64` byte count followed by the values in Fortran order.
 -/
 namespace Pew.Export
 
@@ -48,11 +57,23 @@ def joinWith : List Char → List Str → Str
   | [], x :: y :: r => x ++ ',' :: joinWith [] (y :: r)
   | s :: ss, x :: y :: r => x ++ s :: joinWith ss (y :: r)
 
-/-- iteration over a text file: the pieces terminated by `\n` (terminator removed, as
-genfromtxt's splitter strips it), and a last unterminated piece when it is not empty -/
-def fileLines (s : Str) : List Str :=
+/-- reading in text mode with `newline=None`: `\r\n` and a lone `\r` are delivered as `\n`
+(`prevCR`: the character before was a `\r`, so a `\n` now belongs to it) -/
+def universalNewlines (prevCR : Bool) : Str → Str
+  | [] => []
+  | c :: r =>
+    if c = '\r' then '\n' :: universalNewlines true r
+    else if c = '\n' then (if prevCR then universalNewlines false r else '\n' :: universalNewlines false r)
+    else c :: universalNewlines false r
+
+/-- `for line in fp`: every piece up to and including its `\n`, and a last unterminated piece when
+it is not empty -/
+def pyLines (s : Str) : List Str :=
   let p := splitOn '\n' s
-  if p.getLast? = some [] then p.dropLast else p
+  p.dropLast.map (· ++ ['\n']) ++ (match p.getLast? with
+    | some [] => []
+    | some l => [l]
+    | none => [])
 
 /-- `line.replace(";", ",").replace("\t", ",")` -/
 def normalise (line : Str) : Str := line.map fun c => if c = ';' ∨ c = '\t' then ',' else c
@@ -60,58 +81,131 @@ def normalise (line : Str) : Str := line.map fun c => if c = ';' ∨ c = '\t' th
 /-- `line.split("#")[0]` -/
 def cutComment (line : Str) : Str := line.takeWhile (· ≠ '#')
 
+/-- the characters of `line.strip(" \r\n")` -/
+def isStripChar (c : Char) : Bool := c = ' ' || c = '\r' || c = '\n'
+
+/-- `line.strip(" \r\n")` -/
+def strip (s : Str) : Str := ((s.dropWhile isStripChar).reverse.dropWhile isStripChar).reverse
+
+/-- `LineSplitter._delimited_splitter` with `delimiter=","`, `comments="#"`: the fields of a line,
+none for a blank or comment-only line -/
+def splitLine (line : Str) : List Str :=
+  let body := strip (cutComment line)
+  if body = [] then [] else splitOn ',' body
+
 /-! ## text: save and load -/
 
 variable {α : Type}
 
-def headerLines : Option Str → Str
-  | none => []
-  | some h => '#' :: ' ' :: h ++ ['\n']
+/-- savetxt's header: `comments + header.replace("\n", "\n" + comments) + "\n"` when `len(header) > 0` -/
+def headerText (h : Str) : Str :=
+  if h = [] then [] else '#' :: h.flatMap (fun c => if c = '\n' then ['\n', '#'] else [c]) ++ ['\n']
 
-def saveText (fmt : α → Str) (header : Option Str) (img : List (List α)) : Str :=
-  headerLines header ++ img.flatMap fun row => join ',' (row.map fmt) ++ ['\n']
+def saveText (fmt : α → Str) (header : Str) (img : List (List α)) : Str :=
+  headerText header ++ img.flatMap fun row => join ',' (row.map fmt) ++ ['\n']
 
 /-- an image written with arbitrary separators from `,` `;` tab (one list of separators per row) -/
 def saveWith (fmt : α → Str) (seps : List (List Char)) (img : List (List α)) : Str :=
   (List.zip seps img).flatMap fun (ss, row) => joinWith ss (row.map fmt) ++ ['\n']
 
-def parseFields (parse : Str → Option α) : List Str → Option (List α)
-  | [] => some []
-  | f :: fs => match parse f, parseFields parse fs with
-    | some x, some xs => some (x :: xs)
-    | _, _ => none
+/-- the lines genfromtxt sees: the file read with universal newlines, `;` and tab replaced -/
+def loaderLines (file : Str) : List Str := (pyLines (universalNewlines false file)).map normalise
 
-/-- genfromtxt's row loop: cut comments, skip blank lines, split, parse; `none` = the call raises -/
-def parseRows (parse : Str → Option α) : List Str → Option (List (List α))
-  | [] => some []
-  | l :: ls =>
-    let body := cutComment l
-    if body = [] then parseRows parse ls
-    else match parseFields parse (splitOn ',' body), parseRows parse ls with
-      | some r, some rs => some (r :: rs)
-      | _, _ => none
+/-- genfromtxt's rows of fields: lines without fields are skipped -/
+def fieldRows (lines : List Str) : List (List Str) := (lines.map splitLine).filter (· ≠ [])
 
-/-- `_ensure_ndmin_ndarray` followed by `np.atleast_2d` on the shape `(r, c)` of the parsed table -/
-def shapeRule (ndmin r c : Nat) : List Nat :=
-  let sq := if 2 > ndmin then [r, c].filter (· ≠ 1) else [r, c]      -- np.squeeze
-  let mn := match sq with                                              -- raise to ndmin (≤ 2)
-    | [n] => if ndmin = 2 then [n, 1] else [n]                         -- atleast_2d(a).T
-    | [] => if ndmin = 2 then [1, 1] else if ndmin = 1 then [1] else []
-    | s => s
+/-- `_ensure_ndmin_ndarray(a, ndmin)` followed by `np.atleast_2d`, on the shape of `a` -/
+def shapeRule (ndmin : Nat) (sh : List Nat) : List Nat :=
+  let sq := if sh.length > ndmin then sh.filter (· ≠ 1) else sh       -- np.squeeze
+  let mn :=
+    if sq.length < ndmin then
+      match sq with
+      | [] => if ndmin = 2 then [1, 1] else if ndmin = 1 then [1] else []
+      | [n] => if ndmin = 2 then [n, 1] else [n]                       -- np.atleast_2d(a).T
+      | s => s
+    else sq
   match mn with                                                        -- np.atleast_2d
   | [] => [1, 1]
   | [n] => [1, n]
   | s => s
 
-/-- `textimage.load(path)`: shape and row-major values; `none` = raises -/
-def loadText (parse : Str → Option α) (ndmin : Nat) (file : Str) : Option (List Nat × List α) :=
-  match parseRows parse ((fileLines file).map normalise) with
-  | none => none
-  | some [] => none                                  -- genfromtxt on an empty table: not an image
-  | some (r :: rs) =>
+/-- the table `genfromtxt` builds, before number conversion: shape and row-major field strings;
+`none` = the call raises `ValueError` (a row with another number of fields than the first).
+No row at all: `np.array([])` of shape `(0,)` (and a warning). -/
+def loadFields (ndmin : Nat) (file : Str) : Option (List Nat × List Str) :=
+  match fieldRows (loaderLines file) with
+  | [] => some (shapeRule ndmin [0], [])
+  | r :: rs =>
     if rs.all (fun q => q.length == r.length) then
-      some (shapeRule ndmin (rs.length + 1) r.length, (r :: rs).flatten)
+      some (shapeRule ndmin [rs.length + 1, r.length], (r :: rs).flatten)
     else none
+
+/-- genfromtxt warns "Empty input file" exactly when no line has a field -/
+def loadWarns (file : Str) : Bool := (fieldRows (loaderLines file)).isEmpty
+
+/-- `textimage.load(path)`: shape and row-major values; `none` = raises.  `conv` is the loose float
+converter (`float(field)`, NaN when that fails) -/
+def loadText (conv : Str → α) (ndmin : Nat) (file : Str) : Option (List Nat × List α) :=
+  (loadFields ndmin file).map fun (sh, d) => (sh, d.map conv)
+
+/-! ## text: files written by other tools
+
+The class of "delimiter variants of an image" made explicit as a writer: every line is indented by
+some spaces, holds cells (a value with spaces before and after) separated by any of `,` `;` tab,
+may end in a comment, and is terminated by `\n`, `\r\n`, a lone `\r`, or (last line) nothing.  A
+line without cells is a blank or comment-only line. -/
+
+inductive Eol where
+  | lf | crlf | cr | eof
+  deriving DecidableEq, Repr
+
+def Eol.str : Eol → Str
+  | .lf => ['\n']
+  | .crlf => ['\r', '\n']
+  | .cr => ['\r']
+  | .eof => []
+
+structure FLine (α : Type) where
+  indent : Nat
+  cells : List (Nat × α × Nat)
+  seps : List Char
+  comment : Option Str
+  eol : Eol
+
+def spaces (n : Nat) : Str := List.replicate n ' '
+
+def cellText (fmt : α → Str) (c : Nat × α × Nat) : Str := spaces c.1 ++ fmt c.2.1 ++ spaces c.2.2
+
+def commentText : Option Str → Str
+  | none => []
+  | some c => '#' :: c
+
+/-- the text of a line before its terminator -/
+def FLine.content (fmt : α → Str) (l : FLine α) : Str :=
+  spaces l.indent ++ joinWith l.seps (l.cells.map (cellText fmt)) ++ commentText l.comment
+
+def foreignFile (fmt : α → Str) (ls : List (FLine α)) : Str :=
+  ls.flatMap fun l => l.content fmt ++ l.eol.str
+
+/-- the description is one of a file of this class: separators are delimiters, one fewer than
+cells; comments hold no line break; only the last line may lack a terminator, and then it is not
+empty; a line ended by a lone `\r` is not followed by an empty line ended by `\n` (that pair of
+lines is the single terminator `\r\n`) -/
+def foreignOk (fmt : α → Str) : List (FLine α) → Bool
+  | [] => true
+  | l :: rest =>
+    l.seps.all (fun s => s = ',' || s = ';' || s = '\t') &&
+    (l.seps.length + 1 == l.cells.length || (l.cells.isEmpty && l.seps.isEmpty)) &&
+    (match l.comment with | none => true | some c => c.all (fun x => x ≠ '\n' && x ≠ '\r')) &&
+    (if l.eol = .eof then rest.isEmpty && !(l.content fmt).isEmpty else true) &&
+    (match l.eol, rest with
+      | .cr, n :: _ => !((n.content fmt).isEmpty && n.eol = .lf)
+      | _, _ => true) &&
+    foreignOk fmt rest
+
+/-- the image a file of the class stands for: the values of the lines that have cells -/
+def foreignImage (ls : List (FLine α)) : List (List α) :=
+  (ls.filter (fun l => !l.cells.isEmpty)).map fun l => l.cells.map (·.2.1)
 
 /-! ## VTK -/
 
@@ -206,5 +300,270 @@ def unescape : Str → Str
     else c :: unescape r
 termination_by s => s.length
 decreasing_by all_goals simp_wf <;> omega
+
+/-! ## VTK: the file as a whole
+
+`vtk.save` writes text lines (XML declaration, `VTKFile`, `ImageData`, `Piece`, `CellData`, one
+`DataArray` per element, the closing tags, `<AppendedData encoding="raw">`), the marker `_`, the
+raw blocks, and the closing text.  Integers are printed in decimal; the spacing values are printed
+by Python's `str` and stay opaque tokens here; the origin is the literal `0.0 0.0 0.0`
+(`f"{origin[1]} {origin[1]} 0.0"` with `origin = 0.0, 0.0`); `byte_order` is the machine's. -/
+
+def digitChar (d : Nat) : Char := Char.ofNat (48 + d)
+
+/-- `str(n)` for a natural number -/
+def natStr (n : Nat) : Str :=
+  if _ : n < 10 then [digitChar n] else natStr (n / 10) ++ [digitChar (n % 10)]
+termination_by n
+decreasing_by omega
+
+def digitVal (c : Char) : Option Nat :=
+  if 48 ≤ c.toNat ∧ c.toNat ≤ 57 then some (c.toNat - 48) else none
+
+def parseNatAux (acc : Nat) : Str → Option Nat
+  | [] => some acc
+  | c :: r => match digitVal c with
+    | some d => parseNatAux (acc * 10 + d) r
+    | none => none
+
+/-- a non-empty string of decimal digits -/
+def parseNat (s : Str) : Option Nat := if s = [] then none else parseNatAux 0 s
+
+/-- one element of a structured image: its name and its values -/
+structure Field (α : Type) where
+  name : Str
+  get : Nat → Nat → Nat → α
+
+/-- a structured image of shape `(n0, n1, n2)` (`n2 = 1` for a 2-D image raised to 3-D) -/
+structure Image (α : Type) where
+  n0 : Nat
+  n1 : Nat
+  n2 : Nat
+  fields : List (Field α)
+
+def Image.vol (img : Image α) (f : Field α) : Vol α := { n0 := img.n0, n1 := img.n1, n2 := img.n2, get := f.get }
+
+/-- ` key="value"` -/
+def attr (k v : Str) : Str := ' ' :: k ++ '=' :: '"' :: v ++ ['"']
+
+/-- `f"0 {nx} 0 {ny} 0 {nz}"` -/
+def extentStr (nx ny nz : Nat) : Str :=
+  '0' :: ' ' :: (natStr nx ++ ' ' :: '0' :: ' ' :: (natStr ny ++ ' ' :: '0' :: ' ' :: natStr nz))
+
+def attrsText (attrs : List (Str × Str)) : Str := attrs.flatMap fun p => attr p.1 p.2
+
+/-- `<name key="value" ...>` (closer `>`) or `<name .../>` (closer `/>`) -/
+def tagLine (name : Str) (attrs : List (Str × Str)) (closer : Str) : Str := '<' :: (name ++ (attrsText attrs ++ closer))
+
+def arrayLine (name : Str) (offset : Nat) : Str :=
+  tagLine "DataArray".toList
+    [("Name".toList, escapeMech name), ("type".toList, "Float64".toList), ("format".toList, "appended".toList),
+     ("offset".toList, natStr offset)] ['/', '>']
+
+/-- the text lines of the header, in order -/
+def vtkHeadLines (endian : Str) (spacing : Str × Str × Str) (nx ny nz : Nat) (names : List Str) (offsets : List Nat) :
+    List Str :=
+  [ "<?xml version=\"1.0\"?>".toList,
+    tagLine "VTKFile".toList [("type".toList, "ImageData".toList), ("version".toList, "1.0".toList),
+      ("byte_order".toList, endian), ("header_type".toList, "UInt64".toList)] ['>'],
+    tagLine "ImageData".toList [("WholeExtent".toList, extentStr nx ny nz), ("Origin".toList, "0.0 0.0 0.0".toList),
+      ("Spacing".toList, spacing.1 ++ ' ' :: (spacing.2.1 ++ ' ' :: spacing.2.2))] ['>'],
+    tagLine "Piece".toList [("Extent".toList, extentStr nx ny nz)] ['>'],
+    tagLine "CellData".toList [("Scalars".toList, escapeMech (names.headD []))] ['>'] ]
+  ++ ((List.zip names offsets).map (fun p => arrayLine p.1 p.2)
+  ++ [ "</CellData>".toList, "</Piece>".toList, "</ImageData>".toList,
+       tagLine "AppendedData".toList [("encoding".toList, "raw".toList)] ['>'] ])
+
+/-- the file: header text up to and including the marker `_`, the appended 8-byte words, the closing text -/
+structure VtkFile (α : Type) where
+  head : Str
+  body : List (Word α)
+  tail : Str
+
+/-- `vtk.save(path, data, spacing)`; `none`: no element (`data.dtype.names[0]` raises) -/
+def vtkRender (endian : Str) (spacing : Str × Str × Str) (img : Image α) : Option (VtkFile α) :=
+  match img.fields with
+  | [] => none
+  | f0 :: _ =>
+    let w := swap01 (flip0 (img.vol f0))                        -- nx, ny, nz = data.shape
+    let blocks := img.fields.map fun f => vtkBlock (img.vol f)  -- data[name].ravel("F")
+    let offsets := offsetsFrom 0 (blocks.map List.length)        -- offset += size * itemsize + 8
+    some { head := (vtkHeadLines endian spacing w.n0 w.n1 w.n2 (img.fields.map (·.name)) offsets).flatMap (· ++ ['\n']) ++ ['_'],
+           body := appended blocks,
+           tail := "</AppendedData>\n</VTKFile>".toList }
+
+/-! ### a reader of the header: the fields a VTK reader needs
+
+The reader takes the header line by line (one tag per line, attributes ` key="value"` separated by
+single spaces, the five predefined entities decoded in values): the subset of XML `vtk.save` writes. -/
+
+inductive Tag where
+  | decl
+  | opening (name : Str) (attrs : List (Str × Str))
+  | empty (name : Str) (attrs : List (Str × Str))
+  | closing (name : Str)
+  deriving DecidableEq
+
+inductive Scan where
+  | start
+  | key (acc : Str)
+  | quote (k : Str)
+  | val (k acc : Str)
+
+/-- the attributes of a tag and what follows them -/
+def scanAttrs : Scan → Str → Option (List (Str × Str) × Str)
+  | .start, [] => some ([], [])
+  | .start, c :: r => if c = ' ' then scanAttrs (.key []) r else some ([], c :: r)
+  | .key _, [] => none
+  | .key acc, c :: r => if c = '=' then scanAttrs (.quote acc) r else scanAttrs (.key (acc ++ [c])) r
+  | .quote _, [] => none
+  | .quote k, c :: r => if c = '"' then scanAttrs (.val k []) r else none
+  | .val _ _, [] => none
+  | .val k acc, c :: r =>
+    if c = '"' then
+      match scanAttrs .start r with
+      | some (as, e) => some ((k, unescape acc) :: as, e)
+      | none => none
+    else scanAttrs (.val k (acc ++ [c])) r
+
+def isNameChar (c : Char) : Bool := c ≠ ' ' && c ≠ '>' && c ≠ '/'
+
+def parseTag : Str → Option Tag
+  | [] => none
+  | c :: r =>
+    if c ≠ '<' then none
+    else match r with
+      | [] => none
+      | d :: r' =>
+        if d = '?' then some .decl
+        else if d = '/' then (if r'.getLast? = some '>' then some (.closing r'.dropLast) else none)
+        else
+          match scanAttrs .start ((d :: r').dropWhile isNameChar) with
+          | some (as, e) =>
+            if e = ['>'] then some (.opening ((d :: r').takeWhile isNameChar) as)
+            else if e = ['/', '>'] then some (.empty ((d :: r').takeWhile isNameChar) as)
+            else none
+          | none => none
+
+def lookup (k : Str) : List (Str × Str) → Option Str
+  | [] => none
+  | (k', v) :: r => if k' = k then some v else lookup k r
+
+def mapOpt {β γ : Type} (f : β → Option γ) : List β → Option (List γ)
+  | [] => some []
+  | x :: xs => match f x, mapOpt f xs with
+    | some y, some ys => some (y :: ys)
+    | _, _ => none
+
+/-- `"0 3 0 2 0 1"` → `[0, 3, 0, 2, 0, 1]` -/
+def parseNats (s : Str) : Option (List Nat) := mapOpt parseNat (splitOn ' ' s)
+
+structure ArrayMeta where
+  name : Str
+  type : Str
+  format : Str
+  offset : Nat
+  deriving DecidableEq
+
+structure VtkMeta where
+  fileType : Str
+  version : Str
+  byteOrder : Str
+  headerType : Str
+  whole : List Nat
+  origin : List Str
+  spacing : List Str
+  piece : List Nat
+  scalars : Str
+  arrays : List ArrayMeta
+  encoding : Str
+  deriving DecidableEq
+
+def arrayOf : Tag → Option ArrayMeta
+  | .empty n as =>
+    if n = "DataArray".toList then
+      match lookup "Name".toList as, lookup "type".toList as, lookup "format".toList as,
+            (lookup "offset".toList as).bind parseNat with
+      | some nm, some ty, some fo, some off => some { name := nm, type := ty, format := fo, offset := off }
+      | _, _, _, _ => none
+    else none
+  | _ => none
+
+/-- the leading `DataArray` lines and the lines after them -/
+def spanArrays : List Str → List ArrayMeta × List Str
+  | [] => ([], [])
+  | l :: ls =>
+    match (parseTag l).bind arrayOf with
+    | some a => ((a :: (spanArrays ls).1), (spanArrays ls).2)
+    | none => ([], l :: ls)
+
+def openAttrs (name : String) : Option Tag → Option (List (Str × Str))
+  | some (.opening n as) => if n = name.toList then some as else none
+  | _ => none
+
+/-- reads the header text (up to and including the marker `_`) -/
+def vtkParse (head : Str) : Option VtkMeta :=
+  match splitOn '\n' head with
+  | l0 :: l1 :: l2 :: l3 :: l4 :: rest =>
+    match parseTag l0, openAttrs "VTKFile" (parseTag l1), openAttrs "ImageData" (parseTag l2),
+          openAttrs "Piece" (parseTag l3), openAttrs "CellData" (parseTag l4) with
+    | some .decl, some a1, some a2, some a3, some a4 =>
+      match (spanArrays rest).2 with
+      | [c0, c1, c2, ap, m] =>
+        if parseTag c0 = some (.closing "CellData".toList) ∧ parseTag c1 = some (.closing "Piece".toList)
+            ∧ parseTag c2 = some (.closing "ImageData".toList) ∧ m = ['_'] then
+          match lookup "type".toList a1, lookup "version".toList a1, lookup "byte_order".toList a1,
+                lookup "header_type".toList a1, (lookup "WholeExtent".toList a2).bind parseNats,
+                lookup "Origin".toList a2, lookup "Spacing".toList a2, (lookup "Extent".toList a3).bind parseNats,
+                lookup "Scalars".toList a4, (openAttrs "AppendedData" (parseTag ap)).bind (lookup "encoding".toList) with
+          | some ft, some ve, some bo, some ht, some wh, some org, some sp, some pe, some sc, some enc =>
+            some { fileType := ft, version := ve, byteOrder := bo, headerType := ht, whole := wh,
+                   origin := splitOn ' ' org, spacing := splitOn ' ' sp, piece := pe, scalars := sc,
+                   arrays := (spanArrays rest).1, encoding := enc }
+          | _, _, _, _, _, _, _, _, _, _ => none
+        else none
+      | _ => none
+    | _, _, _, _, _ => none
+  | _ => none
+
+/-- what a reader must find in the header of the file written for `img`: `nx` = columns, `ny` = rows -/
+def vtkMetaSpec (endian : Str) (spacing : Str × Str × Str) (img : Image α) : VtkMeta :=
+  { fileType := "ImageData".toList, version := "1.0".toList, byteOrder := endian, headerType := "UInt64".toList,
+    whole := [0, img.n1, 0, img.n0, 0, img.n2],
+    origin := ["0.0".toList, "0.0".toList, "0.0".toList],
+    spacing := [spacing.1, spacing.2.1, spacing.2.2],
+    piece := [0, img.n1, 0, img.n0, 0, img.n2],
+    scalars := (img.fields.map (·.name)).headD [],
+    arrays := (List.zip (img.fields.map (·.name)) (offsetsFrom 0 (img.fields.map fun _ => img.n1 * img.n0 * img.n2))).map
+      fun p => { name := p.1, type := "Float64".toList, format := "appended".toList, offset := p.2 },
+    encoding := "raw".toList }
+
+/-- the reader above decodes the five predefined entities and nothing else: a header in which some
+`&` starts anything else (a character reference such as `&#38;`) is outside the subset it reads -/
+def entitiesKnown : Str → Bool
+  | [] => true
+  | c :: r => (if c = '&' then (entityAt r).isSome else true) && entitiesKnown r
+
+/-- the header texts the reader above is a faithful XML reader for: only the predefined entities,
+and no tab or carriage return anywhere (an XML parser turns white space inside an attribute value
+into a space; this reader does not); line breaks are the line structure -/
+def inReaderSubset (head : Str) : Bool := entitiesKnown head && !head.contains '\t' && !head.contains '\r'
+
+/-- decidable form of the hypothesis `HeadOk` of the header theorems -/
+def headOkB (endian : Str) (spacing : Str × Str × Str) (names : List Str) : Bool :=
+  endian.all (fun c => c ≠ '"' && c ≠ '&' && c ≠ '\n') &&
+  [spacing.1, spacing.2.1, spacing.2.2].all (fun t => t.all fun c => c ≠ '"' && c ≠ '&' && c ≠ '\n' && c ≠ ' ') &&
+  names.all (fun n => !n.contains '\n')
+
+/-- what a reader does with a declared offset: the byte count found there and the values after it -/
+def readBlock (body : List (Word α)) (offset : Nat) : Option (Nat × List α) :=
+  if offset % 8 ≠ 0 then none
+  else match body[offset / 8]? with
+    | some (.len n) =>
+      let ws := (body.drop (offset / 8 + 1)).take (n / 8)
+      if ws.length = n / 8 ∧ n % 8 = 0 then
+        mapOpt (fun w => match w with | .val a => some a | .len _ => none) ws |>.map fun vs => (n, vs)
+      else none
+    | _ => none
 
 end Pew.Export
